@@ -157,11 +157,17 @@ func (b *Batcher[K, T]) Batch(key K, value T) {
 // subscribers. The batcher will be a no-op after this call.
 func (b *Batcher[K, T]) Close() {
 	defer b.wg.Wait()
-	b.queue.Close()
-	b.lock.Lock()
+	// Signal first: a delivery that is blocked on a subscriber which does not read
+	// holds the lock and keeps the queue's loop busy, so neither could be waited
+	// for; closeCh is what releases it.
 	if b.closed.CompareAndSwap(false, true) {
 		close(b.closeCh)
 	}
+	b.queue.Close()
+	// Wait for a Subscribe that is in progress; one that got in before the signal
+	// has registered its goroutine with the wait group by now.
+	b.lock.Lock()
+	//nolint:staticcheck
 	b.lock.Unlock()
 }
 
